@@ -14,6 +14,9 @@ use vh::{run_main, Ctx, Local, Mismatch, Tri};
 const SIGMA: [&str; 6] = ["a", "b", ".", "/", "*", "^"];
 // (the two last modes give the left anchor something to bite on: over {a,b,.,/,*,^} alone a
 // `|`-anchored pattern can never match a URL, which always starts with its scheme)
+// case sweep: the same modes with upper-case letters in the rule text (ABP patterns are
+// case-insensitive; the parser lower-cases the text, the hostname and the regex separately)
+const SIGMA_CASE: [&str; 6] = ["a", "A", "B", "/", "*", "^"];
 const MODES: [(&str, &str); 8] = [("", ""), ("|", ""), ("", "|"), ("|", "|"), ("||", ""), ("||", "|"), ("|https://a.b", ""), ("|http://b.a/", "|")];
 
 struct U {
@@ -29,7 +32,7 @@ fn build_urls() -> Vec<U> {
     for i in 0..n {
         paths.push(nth_string(i, &["a", "b", "/", "."]));
     }
-    for extra in ["?a", "a?b", "a=b", "a:b", "A", "aB/", "ab.a", "a.b/a", "b/a.b", "a&b", "a_b", "a-b", "a%b"] {
+    for extra in ["?a", "a?b", "a=b", "a:b", "A", "aB/", "ab.a", "a.b/a", "b/a.b", "a&b", "a_b", "a-b", "a%b", "AB", "Ab", "bA/", "B/a", "A.B", "aA", "B"] {
         paths.push(extra.to_string());
     }
     let mut out = vec![];
@@ -507,6 +510,19 @@ fn check(ctx: &Ctx) -> i32 {
         let rule = format!("{}{}{}", MODES[mode].0, body, MODES[mode].1);
         check_star_relations(&rule, &urls, l);
     });
+    let case_len: u32 = ctx.tier.pick(5, 6);
+    ctx.bound("case_sweep_body_max_len", case_len);
+    ctx.bound("case_sweep_alphabet", json!(SIGMA_CASE));
+    let case_bodies = count_strings_upto(SIGMA_CASE.len() as u64, case_len) - 1;
+    ctx.par_range("upper-case patterns", case_bodies * MODES.len() as u64, 64, |i, l| {
+        let mode = (i % MODES.len() as u64) as usize;
+        let body = nth_string(i / MODES.len() as u64 + 1, &SIGMA_CASE);
+        if !body.contains('A') && !body.contains('B') {
+            return;
+        }
+        let rule = format!("{}{}{}", MODES[mode].0, body, MODES[mode].1);
+        check_pattern(&rule, &urls, l, false);
+    });
     ctx.par_range("full-regex", REGEXES.len() as u64, 1, |i, l| {
         if l.samples.len() < 1 {
             l.samples.push(json!({"full_regex_rule": REGEXES[i as usize]}));
@@ -515,7 +531,7 @@ fn check(ctx: &Ctx) -> i32 {
     });
     ctx.finish(
         "model_checking",
-        "every pattern body of length 1..=n over {a,b,.,/,*,^} x 8 anchor modes (none, |p, p|, |p|, ||p, ||p|, |https://a.b+p, |http://b.a/+p|), each against every URL of the universe (2 schemes x 7 hosts with repeated/prefix/suffix labels x optional userinfo x all paths of length <=3 over {a,b,/,.} + separators); a case is non-trivial when the real matcher reports a match; states = rules parsed, transitions = (rule,url) evaluations, traces_validated = evaluations compared with the reference or a relation",
+        "every pattern body of length 1..=n over {a,b,.,/,*,^} x 8 anchor modes (none, |p, p|, |p|, ||p, ||p|, |https://a.b+p, |http://b.a/+p|), each against every URL of the universe (2 schemes x 7 hosts with repeated/prefix/suffix labels x optional userinfo x all paths of length <=3 over {a,b,/,.} + separators + upper-case paths); the same modes over {a,A,B,/,*,^} up to a shorter length (case-insensitivity of the rule text); a case is non-trivial when the real matcher reports a match; states = rules parsed, transitions = (rule,url) evaluations, traces_validated = evaluations compared with the reference or a relation",
         &[
             "regex crate is the oracle for full-regex rules",
             "URLs are ASCII, lower-case host, non-empty path (the property's domain)",
